@@ -40,7 +40,7 @@ PROPS = {
     "C05": P(["lifecycle", "store", "provider", "waitpay"],
              "Proof (Verus): pay requires !live(w) && !pay_running; a Succeeded record is never followed by add_payment_attempt/pay; add_payment_attempt never overwrites a Succeeded record; the Free write of mark_failed is generation guarded (Released-phase rely).",
              LIFE_NOTE, assumptions=A_WORLD),
-    "C06": P(["lifecycle", "fee", "paystate", "tlv_dec", "handle", "handle_slices", "store", "provider", "waitpay", "height", "tlv_enc"],
+    "C06": P(["lifecycle", "fee", "paystate", "tlv_dec", "handle", "handle_slices", "store", "provider", "waitpay", "height", "tlv_enc", "tlv_get"],
              "Proof of the safety half (Verus): every normal return of payment_lifecycle has answered exactly once (resolve requires not yet released, lifecycle ensures released); no reachable panic in the functions under contract (unwrap/expect/todo!/overflow/index are obligations). Known finding F-C06-a (todo! reachable). Liveness clauses are not applicable to this technique (level_note).",
              LIFE_NOTE + " NOT APPLICABLE clauses: 'eventually', 'no later than one MPP timeout', deadlock freedom (liveness / scheduler fairness).",
              assumptions=A_WORLD),
@@ -75,14 +75,14 @@ PROPS = {
 }
 
 HANDLE_NOTE = ("Trusted: " + TB_COMMON + " env/invoice.rs (utf-8, str::parse, lightning_invoice accessors: parse_any/sig_ok/hash/amount/payee/route_hints are uninterpreted views of the dependency), "
-               "env/bytes.rs; SerializedTlvStream::{get,remove,from_bytes,to_bytes,get_tu64} enter under their interface contracts (proved in units tlv_dec/tlv_enc where stated). "
+               "env/bytes.rs; SerializedTlvStream::{get,remove,from_bytes,to_bytes,get_tu64} enter under their interface contracts (proved in units tlv_get/tlv_dec/tlv_enc where stated; get/remove are proved on their real bodies against env/vec_model.rs, the std Vec/slice-iterator model). "
                "handle_htlc is verified whole (closure body verbatim; payment_lifecycle enters as a contract-less stub, so the spawn is a hand-over that is not under contract) and additionally as two E6 statement slices (classification prefix with the no-side-effect clause, gate under the lock). Assumed: every table entry satisfies the representation invariant (entries are only created by PaymentState::new and changed by add_htlc/fail/resolve); a listener handed to add_htlc is eventually answered (liveness).")
-PROPS["C10"] = P(["handle", "handle_slices", "tlv_dec"],
+PROPS["C10"] = P(["handle", "handle_slices", "tlv_dec", "tlv_get"],
     "Proof (Verus): extract_trampoline_info/check_htlc verbatim: Trampoline(t) only if the metadata decodes, carries record 33001 whose utf-8 text parses to t.invoice, signature valid, invoice hash == HTLC hash, payee = signing key, amount rule (invoice amount, agreeing well-formed amount field; else exactly the declared amount), policy = configured; self-route-hint gate including the not-found half of the search (E8 closure contracts + env find).",
     HANDLE_NOTE, assumptions=["lightning_invoice parse/check_signature/get_payee_pub_key/route_hints behave as their uninterpreted views", "std iter().find returns the first match or None if no element matches (env HintIter::find)"])
-PROPS["C13"] = P(["handle", "handle_slices", "tlv_enc", "tlv_dec"],
+PROPS["C13"] = P(["handle", "handle_slices", "tlv_enc", "tlv_dec", "tlv_get"],
     "Proof (Verus): the classification prefix of handle_htlc returns Continue (payload None, or the input records minus the first type-16 record, byte for byte and in order) or the self-hint Fail, with the ghost world unchanged (no RPC, no table access) on every path; check_htlc/default_response verbatim.",
-    HANDLE_NOTE, assumptions=["get/remove/to_bytes contracts (first record of a type; concatenation of record encodings)"])
+    HANDLE_NOTE, assumptions=["std Vec / slice iteration semantics of env/vec_model.rs (find/position return the first match; Vec::remove removes exactly that element) under which get/remove are proved in unit tlv_get"])
 
 PROPS["C15"] = P(["waitpay"],
     "Proof (Verus, unbounded loop invariants): PayPaymentProvider::wait_payment verbatim against a node model with per-part sets: Ok(Some(p)) only if p is the preimage of a completed part; Ok(None) only if at return no part of the hash is pending or complete, for every number of parts, every order in which the waitsendpay results are consumed (FuturesUnordered is demonic), parts resolving at any time between the RPCs (node rely), and every error code (202/203/204/208/209 do not end the wait). On the pinned tree the clause no_part_completed_unseen_between_the_two_listings failed for the join! of the two listings (D5, fixed).",
@@ -112,8 +112,8 @@ PROPS["C20"] = P(["height"],
     "Trusted: " + TB_COMMON + " env/height_env.rs (tokio Mutex<u32>: exclusive access; other holders only run update_height). NOT APPLICABLE clause: 'catches up within one poll interval' (timer liveness).",
     assumptions=["only the functions of block_watcher.rs write the height cell (field is private to the module)"])
 
-PROPS["C18"] = P(["tlv_dec", "tlv_enc"],
-    "Proof (Verus, unbounded loop invariant): get_compact_size, SerializedTlvStream::from_bytes and try_from(Vec<u8>) as extracted from src/tlv.rs are total (every bytes::Buf getter's remaining-length precondition is discharged: no panic on any byte string) and return exactly parse(bytes) of the BigSize/TLV spec functions in specs/tlv_spec.rs. Encoder: put_compact_size appends exactly cs_enc(x) (minimal BigSize), to_bytes returns the concatenation of the record encodings (loop invariant), and lemma_cs_roundtrip proves cs_dec(cs_enc(x) ++ rest) == (x, len) for all u64. Lemmas (checked on every run): lemma_parse_of_encoding: parse(enc_all(es)) == Some(es) for every record sequence (encode-then-decode reproduces the records), lemma_decode_then_encode: for every byte string that is an encoding (valid, minimally encoded stream) decoding then encoding reproduces the bytes. Composed with from_bytes == parse and to_bytes == enc_all this is the lossless clause for the real functions.",
+PROPS["C18"] = P(["tlv_dec", "tlv_enc", "tlv_get"],
+    "Proof (Verus, unbounded loop invariant): get_compact_size, SerializedTlvStream::from_bytes and try_from(Vec<u8>) as extracted from src/tlv.rs are total (every bytes::Buf getter's remaining-length precondition is discharged: no panic on any byte string) and return exactly parse(bytes) of the BigSize/TLV spec functions in specs/tlv_spec.rs. Encoder: put_compact_size appends exactly cs_enc(x) (minimal BigSize), to_bytes returns the concatenation of the record encodings (loop invariant), and lemma_cs_roundtrip proves cs_dec(cs_enc(x) ++ rest) == (x, len) for all u64. Lemmas (checked on every run): lemma_parse_of_encoding: parse(enc_all(es)) == Some(es) for every record sequence (encode-then-decode reproduces the records), lemma_decode_then_encode: for every byte string that is an encoding (valid, minimally encoded stream) decoding then encoding reproduces the bytes. Composed with from_bytes == parse and to_bytes == enc_all this is the lossless clause for the real functions. Record access: get returns the first record of the type (None iff there is none), remove deletes exactly that record and keeps all others byte for byte and in order (unit tlv_get, real bodies, hint-free).",
     "Trusted: " + TB_COMMON + " env/bytes.rs (mirror of bytes::Buf: big-endian getters, panic preconditions), AsRef view, 64-bit usize. get_tu64 is under an assumed contract in this unit (slice-range copy_from_slice / from_be_bytes are outside Verus' subset).",
     assumptions=["env/bytes.rs describes bytes-1.6 Buf for &[u8], Bytes and Take<Bytes>", "64-bit target"],
     bounded=[])
@@ -131,6 +131,8 @@ PROVED_IN = {
     "htlc_manager::PaymentState::add_htlc": "unit paystate",
     "htlc_manager::PaymentState::fail": "unit paystate",
     "tlv::ProtoBuf::get_compact_size": "unit tlv_dec",
+    "tlv::SerializedTlvStream::get": "unit tlv_get",
+    "tlv::SerializedTlvStream::remove": "unit tlv_get",
     "tlv::SerializedTlvStream::from_bytes": "unit tlv_dec",
     "tlv::SerializedTlvStream::try_from": "unit tlv_dec",
     "tlv::SerializedTlvStream::to_bytes": "unit tlv_enc",
